@@ -298,7 +298,6 @@ def explore(ctx):
 
 
 def search(ctx, broken):
-    ctx.tier = 'thorough'
     explore(ctx)
 
 
